@@ -68,6 +68,12 @@ func rC13Ownership(w *World, r *Report) {
 	}
 	writers := map[string]bool{"(*dag.Graph).addTask": true, nRun: true, nSkipPar: true}
 	readers := map[string]bool{nGetNext: true, nRun: true}
+	// pure helpers that only the scheduler-side readers call are scheduler-side readers too
+	for _, fn := range w.Funcs {
+		if fn.Pkg != nil && shortName(fn.Pkg.Pkg.Path()) == "dag" && !inGo[fn] && w.isPure(fn) && onlyCalledFrom(w, fn, readers) {
+			readers[short(fn)] = true
+		}
+	}
 	for _, u := range w.fieldUses(f) {
 		n := short(u.Fn)
 		key := u.Kind + "/" + n
@@ -94,7 +100,7 @@ type readiness struct {
 }
 
 func rC13Readiness(w *World, r *Report) {
-	ru := r.Rule("R13.2", "finite evaluation of getNextVertex: a vertex is offered (ok == true) only when its own status is pending or skip and, when it has children, the all-children flag is clear; per child status the flag is set for pending and in-progress children and never reset", 8)
+	ru := r.Rule("R13.2", "finite evaluation of getNextVertex: a vertex is offered (ok == true) only when its own status is pending or skip and, when it has children, the all-children flag is clear; per child status the flag is set for pending and in-progress children and never reset", 4)
 	fn := w.Fn(nGetNext)
 	if fn == nil {
 		ru.Undecided("anchor", "-", "getNextVertex not found")
@@ -187,6 +193,15 @@ func rC13Readiness(w *World, r *Report) {
 			}
 		}
 		if ch == nil {
+			// helper form: the offer is dominated by `h(v) == false` where h scans v.Children
+			if ok, why, pos := childHelperBlocks(w, ret, v, st); why != "" {
+				if ok {
+					ru.OK(key+"/children/helper", pos, why)
+				} else {
+					ru.Bad(key+"/children/helper", pos, why)
+				}
+				continue
+			}
 			ru.Bad(key+"/children", w.IPos(ret), "a vertex with dependencies is offered without its children being scanned")
 			continue
 		}
@@ -583,4 +598,62 @@ func phiLeaves(v ssa.Value, seen map[ssa.Value]bool) []ssa.Value {
 		return out
 	}
 	return []ssa.Value{v}
+}
+
+// childHelperBlocks handles the refactored form `if !blocked(v) { offer }`: blocked must be a pure function that ranges
+// over v.Children, returns true on every path for a child that is pending or in progress, and false only after the scan.
+func childHelperBlocks(w *World, ret *ssa.Return, v ssa.Value, st map[string]int64) (ok bool, why string, pos string) {
+	var call *ssa.Call
+	for _, f := range factsAt(ret.Block()) {
+		if f.Op != token.ILLEGAL || f.Truth {
+			continue
+		}
+		c, isCall := f.X.(*ssa.Call)
+		if !isCall {
+			continue
+		}
+		callee := c.Call.StaticCallee()
+		if callee == nil || callee.Blocks == nil || w.PkgOfFn(callee) == nil || len(c.Call.Args) != 1 || c.Call.Args[0] != v {
+			continue
+		}
+		call = c
+	}
+	if call == nil {
+		return false, "", ""
+	}
+	h := call.Call.StaticCallee()
+	pos = w.Pos(h.Pos())
+	if !w.isPure(h) {
+		return false, "the helper deciding readiness has side effects", pos
+	}
+	var hdr *ssa.BasicBlock
+	for _, lh := range loopHeaders(h) {
+		if coll := rangeCollectionOfHeader(lh); coll != nil {
+			if b, isF := loadOfFieldNamed(coll, "Children"); isF && b == ssa.Value(h.Params[0]) {
+				hdr = lh
+			}
+		}
+	}
+	if hdr == nil {
+		return false, "the helper deciding readiness does not scan the vertex's children", pos
+	}
+	child := rangeElem(hdr)
+	for name, val := range st {
+		sawTrue, sawOther := false, false
+		pe := &pathExplorer{assume: assumeFieldOf(child, "status", val, nil), stopBlock: func(b *ssa.BasicBlock) bool { return b == hdr },
+			onArrive: func(_, _ *ssa.BasicBlock, _ int, _ boolEnv) { sawOther = true },
+			onReturn: func(r2 *ssa.Return, env boolEnv) {
+				if evalBool(r2.Results[0], env) == 2 {
+					sawTrue = true
+				} else {
+					sawOther = true
+				}
+			}}
+		pe.startEdge(hdr, 0, boolEnv{})
+		if (name == "runPending" || name == "runInProgress") && (sawOther || !sawTrue) {
+			return false, "a child that is " + name + " does not make the helper report the vertex as blocked: the parent could start before this dependency finished", pos
+		}
+	}
+	// returns reachable without entering the loop body must be false only after the scan: any `return true` outside the loop is conservative, fine
+	return true, "readiness helper " + short(h) + ": pending / in-progress children always block", pos
 }
